@@ -4,6 +4,7 @@ import world_chain  # noqa: F401
 import world_deleg  # noqa: F401
 import world_storage  # noqa: F401
 import world_process  # noqa: F401
+import world_threads  # noqa: F401
 
 REAL = ["conda_content_trust/*.py (working tree)", "pyca/cryptography + OpenSSL", "json, codecs, io.TextIOWrapper"]
 ASSUME_CRYPTO = ("ed25519 is unforgeable and a random corruption of a signature, key or header does not yield "
@@ -189,3 +190,25 @@ RULE_CONFIG = ("configuration leg: the verdict vector of a call list built from 
                "evaluated in-process and in fresh interpreters under pre-import sets x stdout encodings x hash seeds x cwd x -O")
 PLANS["C02"]["stages"].append({"world": "config", "runs": {"quick": 24, "thorough": 800}})
 PLANS["C02"]["rule"] += "; " + RULE_CONFIG
+
+
+PLANS["C12"] = {
+    "level": "exploration",
+    "stages": [{"world": "threads", "runs": {"quick": 400, "thorough": 30000}},
+               {"world": "config", "runs": {"quick": 24, "thorough": 800}},
+               {"world": "envelope", "runs": {"quick": 600, "thorough": 40000}},
+               {"world": "chain", "runs": {"quick": 500, "thorough": 40000}},
+               {"world": "deleg", "runs": {"quick": 500, "thorough": 40000}}],
+    "rule": ("thread world: 1-4 real threads under a seeded baton scheduler (pre-emption at every traced line, optionally opcode, inside "
+             "conda_content_trust/*; switch probability per run from {0.02, 0.1, 0.3, 0.6}) issue 3-8 calls each (10-40 for the "
+             "single-thread history profile) over a shared pool with related inputs; every outcome is compared with the same call "
+             "evaluated alone on a reset library state and the pool is snapshotted before/after; " + RULE_CONFIG + "; in the envelope, "
+             "chain and delegation worlds every validator/verifier call is wrapped in deep typed argument snapshots, wrapping is probed "
+             "for aliasing in both directions, and repeated (trusted, offered) pairs must get the same verdict; non-trivial = a fault or "
+             "thread switch occurred and both outcomes were seen"),
+    "assumptions": [ASSUME_SAMPLE, "pre-emption granularity is the traced line (opcode inside the verifiers on a sample of runs); a real GIL "
+                    "switch inside a C call (OpenSSL, json) is not modelled", "<= 4 threads, <= 8 calls per thread"],
+    "components": {"real": PROC_REAL + ["real threading.Thread objects; only the choice of who runs is simulated"],
+                   "stub": ["baton scheduler", "SimStdout sink"] + ENV_STUB},
+    "must_probe": {"all": ["thread_switches", "threads_1", "threads_4", "wrap_alias_checked"]},
+}
